@@ -35,6 +35,8 @@ DEFAULT_WORLD_KNOBS = dict(
     min_units=0,
     max_units=600,
     big_baseline=True,
+    prorated_p=0.0,  # probability that the baseline counts are fractional (a past election prorated onto today's units)
+    odd_unit_frac=0.0,  # units whose turnout factor is high but inside the hard limits AND whose margin flips
 )
 
 
@@ -58,6 +60,7 @@ def make_world(rng, knobs=None):
     states = [STATE_POOL[int(i)] for i in sorted(idx)]
     noise = choice(rng, k["noise"])
     equal = k["equal_size"]
+    prorated = chance(rng, k["prorated_p"])
     base_size = _rint(rng, 200, 5000)
 
     baseline = []
@@ -102,6 +105,9 @@ def make_world(rng, knobs=None):
                     b_gop = two - b_dem
                     if chance(rng, k["zero_baseline_frac"]):
                         b_turn = b_dem = b_gop = 0
+                    elif prorated:
+                        fr = float(rng.uniform(0.3, 0.97))
+                        b_turn, b_dem, b_gop = round(b_turn * fr, 3), round(b_dem * fr, 3), round(b_gop * fr, 3)
                     x1 = float(round(rng.normal(0, 1), 6))
                     x2 = float(round(rng.uniform(0, 1), 6))
                     row = dict(
@@ -139,6 +145,12 @@ def make_world(rng, knobs=None):
                     t_two = int(round(t_turn * rng.uniform(0.92, 1.0)))
                     t_dem = int(round(t_two * share))
                     t_gop = t_two - t_dem
+                    if b_turn > 50 and chance(rng, k["odd_unit_frac"]):
+                        # an odd unit: turnout far up (still inside the default hard limits) and the margin flipped
+                        t_turn = int(round(b_turn * float(rng.uniform(1.6, 1.95))))
+                        t_two = int(round(t_turn * 0.97))
+                        t_dem = int(round(t_two * (0.1 if lean > 0.5 else 0.9)))
+                        t_gop = t_two - t_dem
                     if b_turn == 0:
                         # empty precinct last time; a few votes this time
                         t_turn = _rint(rng, 0, 30)
@@ -189,6 +201,7 @@ def make_world(rng, knobs=None):
         config=config,
         covariates=["x1", "x2"],
         noise=noise,
+        prorated=prorated,
     )
 
 
